@@ -314,7 +314,7 @@ func semMaxJobsCase(c *Ctx) []Violation {
 		for op := 0; op < nops && len(out) == 0; op++ {
 			m := cl[plan.Draw(nclients)]
 			ctx := ""
-			switch k := plan.Draw(8); {
+			switch k := plan.Draw(9); {
 			case k < 3 && m.state == "idle":
 				core.VerifSetMetadataState(m.md, "queued")
 				m.state = "waiting"
@@ -343,6 +343,13 @@ func semMaxJobsCase(c *Ctx) []Violation {
 			case k == 6:
 				ctx = "FindDone"
 				misc <- func() { sem.FindDone() }
+			case k == 7 && m.state == "waiting":
+				// the job is cancelled (its metadata fails) while it waits for a
+				// slot: when it is woken it must give up and pass the wake-up on
+				core.VerifSetMetadataState(m.md, "failed")
+				m.state = "cancelled"
+				ctx = "cancel waiting " + fmt.Sprint(m.md.VerifLabel())
+				c.Res.Probes["maxjobs-waiter-cancelled"]++
 			default:
 				continue
 			}
